@@ -77,7 +77,7 @@ type Mutation struct {
 	Where string `json:"where"` // "flight" (into Node), "rest" (on Node)
 	Node  int    `json:"node"`
 	Index uint64 `json:"index"`
-	Field string `json:"field"` // index+1 index-1 term+1 term-1 type databit datatrunc dataext datanil extbit extadd swap
+	Field string `json:"field"` // index+1 index-1 term+1 term-1 type databit datatrunc dataext datanil extbit extadd swap (i returned as a copy of i+1) xchg (i and i+1 returned in each other's place)
 }
 
 func (m Mutation) String() string {
@@ -159,8 +159,15 @@ func (c *corruptStore) GetLog(i uint64, l *raft.Log) error {
 	if err := c.LogStore.GetLog(i, l); err != nil {
 		return err
 	}
+	if f, ok := c.mut[i-1]; ok && f == "xchg" && i > 0 {
+		var o raft.Log
+		if err := c.LogStore.GetLog(i-1, &o); err == nil {
+			*l = o
+		}
+		return nil
+	}
 	if f, ok := c.mut[i]; ok {
-		if f == "swap" {
+		if f == "swap" || f == "xchg" {
 			var o raft.Log
 			if err := c.LogStore.GetLog(i+1, &o); err == nil {
 				*l = o
